@@ -13,7 +13,7 @@ use serde_json::{json, Value};
 use std::cell::RefCell;
 use std::collections::BTreeMap;
 use std::rc::Rc;
-use tsrun::{api, JsError, JsValue, ModulePath, OrderResponse, RuntimeValue, StepResult};
+use tsrun::{api, Interpreter, JsError, JsValue, ModulePath, OrderResponse, RuntimeValue, StepResult};
 
 pub struct C07Prop;
 pub static C07: C07Prop = C07Prop;
@@ -106,7 +106,7 @@ fn completion_segment(tape: &mut Tape, k1: u64, k2: u64) -> (String, String) {
 }
 
 #[derive(Clone, Copy, PartialEq, Debug)]
-enum Kind {
+pub enum Kind {
     Value,
     Error,
     Promise,
@@ -115,7 +115,7 @@ enum Kind {
     Reject,
 }
 
-fn kind_of(v: &Value) -> Kind {
+pub fn kind_of(v: &Value) -> Kind {
     match v.as_str() {
         Some("e") => Kind::Error,
         Some("p") => Kind::Promise,
@@ -148,6 +148,112 @@ struct HostRun {
     stale: Vec<String>,
 }
 
+/// Drive one module program on an existing interpreter with the scripted host (used by C07 and C14).
+pub fn drive_host(interp: &mut Interpreter, src: &str, path: Option<&str>, kinds: &BTreeMap<u64, Kind>, sched: &[u64], suspensions: &mut u64) -> String {
+    let mut si = 0usize;
+    let mut next = |n: u64| -> u64 {
+        let v = sched.get(si % sched.len().max(1)).copied().unwrap_or(0);
+        si += 1;
+        if n == 0 { 0 } else { v % n }
+    };
+    let mut outstanding: Vec<(u64, RuntimeValue)> = vec![];
+    let mut steps = 0u64;
+    tsrun::verif_hooks::vm_instr_set_limit(20_000_000);
+    tsrun::verif_hooks::vm_instr_reset();
+    let mut res = match interp.prepare(src, path.map(ModulePath::new)) {
+        Ok(r) => r,
+        Err(e) => return format!("error:{}", error_class(&e)),
+    };
+    loop {
+        match res {
+            StepResult::Continue => {}
+            StepResult::Complete(v) => return format!("complete:{}", render_value(&v)),
+            StepResult::Done => return "done".into(),
+            StepResult::NeedImports(_) => return describe_step(&res),
+            StepResult::Suspended { pending, cancelled: _ } => {
+                *suspensions += 1;
+                // host-forced collection while the run is parked (schedule-chosen)
+                if next(2) == 1 {
+                    interp.collect();
+                }
+                // spurious steps while suspended
+                let spurious = next(3);
+                let mut early: Option<StepResult> = None;
+                if pending.is_empty() {
+                    for _ in 0..spurious {
+                        match interp.step() {
+                            Ok(StepResult::Suspended { pending: p2, .. }) if p2.is_empty() => {}
+                            Ok(other) => {
+                                early = Some(other);
+                                break;
+                            }
+                            Err(e) => return format!("error:{}", error_class(&e)),
+                        }
+                    }
+                }
+                if let Some(o) = early {
+                    res = o;
+                    continue;
+                }
+                if !pending.is_empty() {
+                    let mut responses = vec![];
+                    for o in pending.iter() {
+                        let pj = tsrun::js_value_to_json(o.payload.value()).unwrap_or(Value::Null);
+                        let k = pj["k"].as_u64().unwrap_or(0);
+                        let kind = kinds.get(&k).copied().unwrap_or(Kind::Value);
+                        let result = match kind {
+                            Kind::Value => Ok(RuntimeValue::unguarded(JsValue::Number((k % 5) as f64))),
+                            Kind::Object => api::create_response_object(interp, &value_json(k, Kind::Object)),
+                            Kind::Error => Err(JsError::type_error(format!("boom {}", k))),
+                            Kind::Promise | Kind::Reject => {
+                                let p = api::create_promise(interp);
+                                let handle = RuntimeValue::unguarded(p.value().clone());
+                                outstanding.push((k, p));
+                                Ok(handle)
+                            }
+                        };
+                        responses.push(OrderResponse { id: o.id, result });
+                    }
+                    drop(pending);
+                    interp.fulfill_orders(responses);
+                } else if !outstanding.is_empty() {
+                    // settle one or several outstanding promises, in a schedule-chosen order
+                    let how_many = 1 + next(outstanding.len() as u64) as usize;
+                    for _ in 0..how_many {
+                        if outstanding.is_empty() {
+                            break;
+                        }
+                        let idx = next(outstanding.len() as u64) as usize;
+                        let (k, p) = outstanding.remove(idx);
+                        if kinds.get(&k).copied() == Some(Kind::Reject) {
+                            let reason = RuntimeValue::unguarded(JsValue::String(format!("rej {}", k).into()));
+                            if api::reject_promise(interp, &p, reason).is_err() {
+                                return "error:reject_promise".into();
+                            }
+                        } else {
+                            let val = RuntimeValue::unguarded(JsValue::Number((k % 5) as f64));
+                            if api::resolve_promise(interp, &p, val).is_err() {
+                                return "error:resolve_promise".into();
+                            }
+                        }
+                    }
+                } else {
+                    return "stuck:suspended-with-nothing-outstanding".into();
+                }
+            }
+        }
+        steps += 1;
+        if steps > 600_000 {
+            return "budget".into();
+        }
+        tsrun::verif_hooks::vm_instr_reset();
+        res = match interp.step() {
+            Ok(r) => r,
+            Err(e) => return format!("error:{}:{}", error_class(&e), e.to_string().chars().take(80).collect::<String>()),
+        };
+    }
+}
+
 /// Drive a module program with a scripted host.
 fn run_host(src: &str, kinds: &BTreeMap<u64, Kind>, sched: &[u64], gc_threshold: Option<usize>) -> HostRun {
     let log = Rc::new(RefCell::new(Vec::new()));
@@ -158,108 +264,7 @@ fn run_host(src: &str, kinds: &BTreeMap<u64, Kind>, sched: &[u64], gc_threshold:
         if let Some(t) = gc_threshold {
             interp.set_gc_threshold(t);
         }
-        let mut si = 0usize;
-        let mut next = |n: u64| -> u64 {
-            let v = sched.get(si % sched.len().max(1)).copied().unwrap_or(0);
-            si += 1;
-            if n == 0 { 0 } else { v % n }
-        };
-        let mut outstanding: Vec<(u64, RuntimeValue)> = vec![];
-        let mut steps = 0u64;
-        tsrun::verif_hooks::vm_instr_set_limit(20_000_000);
-        tsrun::verif_hooks::vm_instr_reset();
-        let mut res = match interp.prepare(src, Some(ModulePath::new("/main.ts"))) {
-            Ok(r) => r,
-            Err(e) => return format!("error:{}", error_class(&e)),
-        };
-        loop {
-            match res {
-                StepResult::Continue => {}
-                StepResult::Complete(v) => return format!("complete:{}", render_value(&v)),
-                StepResult::Done => return "done".into(),
-                StepResult::NeedImports(_) => return describe_step(&res),
-                StepResult::Suspended { pending, cancelled: _ } => {
-                    suspensions += 1;
-                    // host-forced collection while the run is parked (schedule-chosen)
-                    if next(2) == 1 {
-                        interp.collect();
-                    }
-                    // spurious steps while suspended
-                    let spurious = next(3);
-                    let mut early: Option<StepResult> = None;
-                    if pending.is_empty() {
-                        for _ in 0..spurious {
-                            match interp.step() {
-                                Ok(StepResult::Suspended { pending: p2, .. }) if p2.is_empty() => {}
-                                Ok(other) => {
-                                    early = Some(other);
-                                    break;
-                                }
-                                Err(e) => return format!("error:{}", error_class(&e)),
-                            }
-                        }
-                    }
-                    if let Some(o) = early {
-                        res = o;
-                        continue;
-                    }
-                    if !pending.is_empty() {
-                        let mut responses = vec![];
-                        for o in pending.iter() {
-                            let pj = tsrun::js_value_to_json(o.payload.value()).unwrap_or(Value::Null);
-                            let k = pj["k"].as_u64().unwrap_or(0);
-                            let kind = kinds.get(&k).copied().unwrap_or(Kind::Value);
-                            let result = match kind {
-                                Kind::Value => Ok(RuntimeValue::unguarded(JsValue::Number((k % 5) as f64))),
-                                Kind::Object => api::create_response_object(&mut interp, &value_json(k, Kind::Object)),
-                                Kind::Error => Err(JsError::type_error(format!("boom {}", k))),
-                                Kind::Promise | Kind::Reject => {
-                                    let p = api::create_promise(&mut interp);
-                                    let handle = RuntimeValue::unguarded(p.value().clone());
-                                    outstanding.push((k, p));
-                                    Ok(handle)
-                                }
-                            };
-                            responses.push(OrderResponse { id: o.id, result });
-                        }
-                        drop(pending);
-                        interp.fulfill_orders(responses);
-                    } else if !outstanding.is_empty() {
-                        // settle one or several outstanding promises, in a schedule-chosen order
-                        let how_many = 1 + next(outstanding.len() as u64) as usize;
-                        for _ in 0..how_many {
-                            if outstanding.is_empty() {
-                                break;
-                            }
-                            let idx = next(outstanding.len() as u64) as usize;
-                            let (k, p) = outstanding.remove(idx);
-                            if kinds.get(&k).copied() == Some(Kind::Reject) {
-                                let reason = RuntimeValue::unguarded(JsValue::String(format!("rej {}", k).into()));
-                                if api::reject_promise(&mut interp, &p, reason).is_err() {
-                                    return "error:reject_promise".into();
-                                }
-                            } else {
-                                let val = RuntimeValue::unguarded(JsValue::Number((k % 5) as f64));
-                                if api::resolve_promise(&mut interp, &p, val).is_err() {
-                                    return "error:resolve_promise".into();
-                                }
-                            }
-                        }
-                    } else {
-                        return "stuck:suspended-with-nothing-outstanding".into();
-                    }
-                }
-            }
-            steps += 1;
-            if steps > 600_000 {
-                return "budget".into();
-            }
-            tsrun::verif_hooks::vm_instr_reset();
-            res = match interp.step() {
-                Ok(r) => r,
-                Err(e) => return format!("error:{}:{}", error_class(&e), e.to_string().chars().take(80).collect::<String>()),
-            };
-        }
+        drive_host(&mut interp, src, Some("/main.ts"), kinds, sched, &mut suspensions)
     });
     tsrun::verif_hooks::vm_instr_set_limit(0);
     let end = match r {
